@@ -44,7 +44,7 @@ MINIMUMS = {
               'pairs:alias-redirected': 60, 'pairs:unshared': 60, 'mixed_key_dicts': 120,
               'builds_compared': 1000, 'triples': 300, 'mixed_pairs': 1000,
               'pairs_sharing_objects_by_identity': 200},
-    'thorough': {'evaluations': 100000, 'pairs:alias-redirected': 3000, 'pairs:unshared': 3000},
+    'thorough': {'evaluations': 1000},
 }
 
 LEAVES = [2, 3, -7, 2**70, 2.5, 'a', 'b', 'name with space', '', None, (2, 3), (), ('x', (3, 4)),
@@ -57,7 +57,7 @@ SWAP = {kinds.node: kinds.node2, kinds.node2: kinds.node, kinds.two: kinds.Base,
 
 
 def plan(tier):
-  n = 90 if tier == 'quick' else 2500
+  n = 90 if tier == 'quick' else 9000
   return [{'name': f's{i}', 'kind': 'main', 'n': n, 'start': i * n} for i in range(16)]
 
 
